@@ -107,6 +107,15 @@ def main(argv=None):
         if a.tier == "thorough" and not a.replay:
             from . import selftest
             rc2 = selftest.run(a.prop.upper())
+            evp = os.path.join(VERIF, "evidence", f"{a.prop.upper()}.json")
+            if os.path.exists(evp) and not os.environ.get("MSA_NO_EVIDENCE"):
+                with open(evp) as fh:
+                    ev = json.load(fh)
+                ev["coverage"]["checker_selftest"] = dict(selftest.LAST, note="designated breaking variants (rule must fire) and benign "
+                                                          "variants (check must stay silent), applied in memory to the current source; "
+                                                          "includes the reverse of every fix: commit and the re-formatted package")
+                with open(evp, "w") as fh:
+                    json.dump(ev, fh, indent=1)
             if rc2 != 0:
                 print(f"ANALYSIS-ERROR property={a.prop.upper()} self-test of the checker failed")
                 return 2
